@@ -180,7 +180,7 @@ def run(tier, seed, report_as=None):
     shared, own = corpus_programs()
     check_batch(chk, shared, "corpus", "corpus", True)
     check_batch(chk, own, "corpm", "corpus-C01M", False)
-    keep = []
+    keep, keepp = [], []
     for tag, mode, collide, only, provide, share, must in BATCHES:
         progs = list(gen_programs(chk.rng, int(n * share), mode, collide, provide, only))
         key = "%s/%s%s%s" % ("collide" if collide else "distinct", mode, "+only" if (only and mode == "django" and not collide) else "",
@@ -188,8 +188,11 @@ def run(tier, seed, report_as=None):
         check_batch(chk, progs, tag, key, must)
         if tag in ("isod", "djad"):
             keep.extend(progs[: n // 2])
+        if tag in ("isop", "djap"):
+            keepp.extend(progs)
     nwf = check_fragment(chk, keep, "frag", "isolated", "wf_prog")
     nwf += check_fragment(chk, keep, "frdj", "django", "wf_prog_django", mode="django")
+    nwf += check_fragment(chk, keepp, "frpr", "isolated+provide", "wf_prog_prov", keep=("provide",))
     chk.assumptions = [
         "programs are drawn from the calculus of coq/Core/Syntax.v by harness/genprog.py (shared with C01/C03/C05); templates emit text "
         "without HTML elements; <!-- _RENDERED --> markers are stripped; expression evaluation of Django's engine (variables, dot lookup, "
@@ -204,11 +207,11 @@ def run(tier, seed, report_as=None):
     return chk.finish(
         rule="genprog programs, %d per batch, small ones first: distinct names isolated / django / django with `only`; colliding names "
              "(collide=0.35) isolated / django; provide/inject in every second program, plus two provide-heavy half batches; plus C01's corpus, C01M's witnesses, and %d programs "
-             "rewritten into the fragments of the refinement theorems (wf_prog / wf_prog_django true). implementation-vs-M must agree in EVERY batch; M-vs-S must "
+             "rewritten into the fragments of the refinement theorems (wf_prog / wf_prog_django / wf_prog_prov true). implementation-vs-M must agree in EVERY batch; M-vs-S must "
              "agree in the distinct-name isolated, django (no `only`) and fragment batches and is counted elsewhere. Non-trivial = has a fill, "
              "a slot and a nested component. Distinct = distinct program text." % (n, nwf),
         explanation="theorems of Props/C01M.v re-checked (ctx_restored for all programs and both modes; component_context_cache privacy; M = S "
-                    "for the isolated and django fragments, no bounds); M evaluated by vm_compute inside Coq on every program and compared with the "
+                    "for the isolated, django and isolated+provide fragments, no bounds); M evaluated by vm_compute inside Coq on every program and compared with the "
                     "implementation's output and with S; wf p -> M p = S p also evaluated as a test on the fragment batches.",
         extra_trusted=["modelled, not verified: Django's template engine for text/variables/if/for/with; Python list insert/pop semantics "
                        "(Core/CtxStack.v py_insertZ/py_popZ); deferred rendering abstracted to in-place rendering (C14 PostRender)",
